@@ -198,7 +198,7 @@ func c11Unhijackable(rep *Report) {
 
 func runC11(ctx *runCtx) {
 	rep := ctx.rep
-	rep.Rule = "cross product of a request grammar: method x HTTP version x Connection and Upgrade value lists (case, several tokens, several header lines, near misses) x version values x key variants (valid, padded with spaces, missing, duplicated, 15/17 bytes, non-base64) x offered x supported subprotocol lists; " +
+	rep.Rule = "cross product of a request grammar: method x HTTP version x Connection and Upgrade value lists (case, several tokens, several header lines, near misses) x version values x key variants (valid, non-canonical base64 spellings of 16 bytes, padded with spaces, missing, duplicated, 15/17 bytes, non-base64) x offered x supported subprotocol lists; " +
 		"each through verifyClientRequest and through Accept with a recording hijackable ResponseWriter (status, headers, Sec-WebSocket-Accept vs crypto/sha1, subprotocol, hijack iff upgrade), pipelined frames, a valid request on a ResponseWriter without Hijacker / with a failing Hijack (error status, no connection), and a real net/http server on loopback; Lean model compared on every case (incl. SHA-1/base64). distinct = case tuple"
 	rng := newRng(ctx.seed, "c11")
 	c11Unhijackable(rep)
@@ -208,7 +208,14 @@ func runC11(ctx *runCtx) {
 	upgs := [][]string{{"websocket"}, {"WebSocket"}, {"h2c, websocket"}, {"h2c", "websocket"}, {"websockets"}, {"web socket"}, {""}, nil, {" websocket "}}
 	vers := [][]string{{"13"}, {"13"}, {"12"}, {"13 "}, {""}, nil, {"13", "12"}, {"12", "13"}, {"13, 12"}}
 	k16 := base64.StdEncoding.EncodeToString(randBytes(rng, 16))
-	keys := [][]string{{k16}, {testKey}, {" " + k16 + " "}, nil, {k16, k16}, {base64.StdEncoding.EncodeToString(randBytes(rng, 15))}, {base64.StdEncoding.EncodeToString(randBytes(rng, 17))},
+	// non-canonical spellings: the last symbol before "==" carries four unused bits that encoding/base64 ignores
+	// when decoding, so these still decode to 16 bytes; the accept value is computed from the key as sent
+	const b64abc = "ABCDEFGHIJKLMNOPQRSTUVWXYZabcdefghijklmnopqrstuvwxyz0123456789+/"
+	nonCanon := func(k string, bits int) string {
+		i := strings.IndexByte(b64abc, k[21])
+		return k[:21] + string(b64abc[i|bits]) + k[22:]
+	}
+	keys := [][]string{{k16}, {testKey}, {" " + k16 + " "}, {nonCanon(k16, 1)}, {nonCanon(k16, 10)}, {nonCanon(testKey, 15)}, nil, {k16, k16}, {base64.StdEncoding.EncodeToString(randBytes(rng, 15))}, {base64.StdEncoding.EncodeToString(randBytes(rng, 17))},
 		{"not base64!!not base64!!"}, {""}, {k16[:22]}, {strings.TrimRight(k16, "=")},
 		{base64.StdEncoding.EncodeToString(randBytes(rng, 18))}, {base64.StdEncoding.EncodeToString(randBytes(rng, 19))}, {base64.StdEncoding.EncodeToString(randBytes(rng, 24))},
 		{base64.StdEncoding.EncodeToString(randBytes(rng, 32))}, {base64.StdEncoding.EncodeToString(randBytes(rng, 64))}, {base64.StdEncoding.EncodeToString(randBytes(rng, 1))}, {"===="}, {"A==="}}
